@@ -1,1 +1,6 @@
 import Properties.RoundCore
+import Properties.C04
+import Properties.C07
+import Properties.C09
+import Properties.C10
+import Properties.C16
